@@ -1,6 +1,7 @@
 package harness
 
 import (
+	"os"
 	"strings"
 	"fmt"
 	"testing"
@@ -38,6 +39,9 @@ func c04Knobs() gen.Knobs {
 	k := gen.DefaultKnobs()
 	k.NoPrefs, k.NoMinValues, k.NoLimits, k.InterPod = true, true, true, 0
 	k.NoSoftTaints = true
+	// no per-offering capacity / overhead overrides: with them the provider may launch an offering of a kept type on
+	// which the pod does not fit (C01 territory), and pass 2 then rightly opens capacity again
+	k.Overrides = false
 	k.MaxNodes = 3
 	k.MaxPending = 6
 	k.EasyPods = true
@@ -77,9 +81,11 @@ func execC04(s *c04Scenario, c *ev.Ctx) {
 		return
 	}
 	placed1 := map[types.UID]bool{}
+	existingHome := map[types.UID]string{} // pass-1 pods that were put on an existing node: the node's state name
 	for _, en := range res1.ExistingNodes {
 		for _, p := range en.Pods {
 			placed1[p.UID] = true
+			existingHome[p.UID] = en.Name()
 		}
 	}
 	claimPods := map[string][]*corev1.Pod{}
@@ -204,6 +210,28 @@ func execC04(s *c04Scenario, c *ev.Ctx) {
 		}
 	}
 	b.refreshNodes()
+	if os.Getenv("VERIF_DBG") != "" {
+		for _, en := range res1.ExistingNodes {
+			if len(en.Pods) > 0 {
+				fmt.Println("P1 EXISTING", en.Name(), shortPods(en.Pods))
+			}
+		}
+		for i, nc := range res1.NewNodeClaims {
+			fmt.Println("P1 NEW", names[i], nc.NodePoolName, shortPods(pods1[i]))
+		}
+		for p, e := range res1.PodErrors {
+			fmt.Println("P1 ERR", p.Name, e)
+		}
+		for _, en := range res2.ExistingNodes {
+			fmt.Println("P2 EXISTING", en.Name(), shortPods(en.Pods), "init", en.Initialized(), "avail", en.Available())
+		}
+		for _, nc := range res2.NewNodeClaims {
+			fmt.Println("P2 NEW", nc.NodePoolName, shortPods(nc.Pods), nc.Requirements)
+		}
+		for p, e := range res2.PodErrors {
+			fmt.Println("P2 ERR", p.Name, e)
+		}
+	}
 	// did a pod that found no home in pass 1 take room on existing capacity now? then pass-1 pods may legitimately move
 	stolen := false
 	for _, en := range res2.ExistingNodes {
@@ -224,7 +252,13 @@ func execC04(s *c04Scenario, c *ev.Ctx) {
 		}
 	}
 	intruded := map[string]bool{}
+	intrudedExisting := map[string]bool{} // existing nodes (by state name) that took, in pass 2, a pass-1 pod from elsewhere
 	for _, en := range res2.ExistingNodes {
+		for _, p := range en.Pods {
+			if placed1[p.UID] && existingHome[p.UID] != en.Name() {
+				intrudedExisting[en.Name()] = true
+			}
+		}
 		bn := b.nodeByStateName(en.Name())
 		if bn == nil || bn.NodeClaim == nil {
 			continue
@@ -235,9 +269,47 @@ func execC04(s *c04Scenario, c *ev.Ctx) {
 			}
 		}
 	}
+	// pass 1 may have launched the pod's NodeClaim as something the pod does not actually accept (the presence-loss
+	// defect recorded under C12 / C01: e.g. family Exists with the pool's family NotIn [..] lands on a type without the
+	// label); pass 2 judges the started node by its real labels, rejects it and opens capacity again
+	misplacedInPass1 := func(p *corev1.Pod) bool {
+		name := claimOf[p.UID]
+		if name == "" {
+			return false
+		}
+		bn := b.nodeByStateName(name)
+		if bn == nil {
+			return false
+		}
+		view, _ := b.existingNodeView(bn)
+		orig := b.originals([]*corev1.Pod{p})[0]
+		return !ref.MatchesNodeAffinity(orig, view) && ref.MatchesUnderPresenceLoss(orig, view.Labels, b.poolPrims(bn.Spec.Pool))
+	}
+	// ... or the started node only satisfies a LATER OR-ed term of the pod: Karpenter treats the terms as an ordered
+	// preference and tries the first term on new capacity before a later term on existing capacity (known finding)
+	onlyLaterTerm := func(p *corev1.Pod) bool {
+		home := claimOf[p.UID]
+		if home == "" {
+			home = existingHome[p.UID]
+		}
+		bn := b.nodeByStateName(home)
+		if home == "" || bn == nil {
+			return false
+		}
+		view, _ := b.existingNodeView(bn)
+		orig := b.originals([]*corev1.Pod{p})[0]
+		first := firstTermOnly(orig)
+		return first != nil && ref.MatchesNodeAffinity(orig, view) && !ref.MatchesNodeAffinity(first, view)
+	}
 	sigFor := func(base string, p *corev1.Pod) string {
-		if intruded[claimOf[p.UID]] {
+		if intruded[claimOf[p.UID]] || (existingHome[p.UID] != "" && intrudedExisting[existingHome[p.UID]]) {
 			return base + ":inflight-room-taken-by-other-pass1-pod"
+		}
+		if misplacedInPass1(p) {
+			return base + ":pass1-node-lacks-required-label:presence-lost"
+		}
+		if onlyLaterTerm(p) {
+			return base + ":via-later-or-term"
 		}
 		return base
 	}
@@ -270,6 +342,13 @@ func execC04(s *c04Scenario, c *ev.Ctx) {
 					if b.nodeByStateName(en.Name()) == bn {
 						residents = append(residents, b.originals(en.Pods)...)
 					}
+				}
+				// a node whose residents plus still-expected daemons already over-commit some resource is full for Karpenter
+				// whatever the pod asks for (resources.Fits: "if any of the total resource values are negative then the
+				// resource will never fit"); that conservative rule is documented behaviour, not a C04 violation
+				if ok, _ := ref.Fits(ref.SumRequests(append(append([]*corev1.Pod{}, residents...), expected...)...), alloc); !ok {
+					c.Class("existing_node_overcommitted_before_pod")
+					continue
 				}
 				if (ref.NodeCase{Node: view, Allocatable: alloc, Residents: residents, Placed: []*corev1.Pod{orig}, Expected: expected}).Admissible() == nil {
 					sig := "new-capacity-although-existing-fits"
